@@ -34,7 +34,7 @@ type witness struct {
 }
 
 func run(r *ev.Run, cfg props.Cfg) {
-	n := cfg.Pick(300, 6000)
+	n := cfg.Pick(1200, 20000)
 	all := append([]codecs.Codec{}, codecs.Values...)
 	all = append(all, codecs.Msgs()...)
 	all = append(all, codecs.Envelopes(codecs.Native, "NativeEnv")...)
